@@ -300,6 +300,37 @@ def sphere_oracle(cls, boundaries, phys, tref, fields, tracers, pts):
   return tend, dict(vorticity=ev(zeta), divergence=ev(delta))
 
 
+def shallow_water_oracle(radius, omega, densities, ref_potential, fields, pts):
+  """Pointwise tendencies of the continuous layered shallow-water equations for polynomial states.
+
+    d zeta/dt = -div((zeta + f) v)       d delta/dt = k.curl((zeta + f) v) - lap(p + v.v/2)
+    d Phi/dt  = -div(Phi v) - Phi_ref delta,
+    p_k = Phi_k + sum_{j != k} min(rho_j / rho_k, 1) Phi_j + orography      (hydrostatic stack of layers)
+
+  fields: dict(psi, chi, phi: Poly [layers]; h: Poly [1] or None).  Returns (tend, state) of nodal values.
+  """
+  a = radius
+  rho = np.asarray(densities, dtype=float)
+  n = len(rho)
+  psi, chi, phi = fields['psi'], fields['chi'], fields['phi']
+  zeta = lap_s(psi) * (1 / a ** 2)
+  delta = lap_s(chi) * (1 / a ** 2)
+  v = tuple((gc + kx) * (1 / a) for gc, kx in zip(grad_s(chi), vec_cross(XYZ, grad(psi))))
+  absvort = zeta + Z * (2 * omega)
+  flux = tuple(absvort * c for c in v)
+  w = np.array([[1.0 if i == j else min(rho[j] / rho[i], 1.0) for j in range(n)] for i in range(n)])
+  press = Poly(np.einsum('ab,b...->a...', w, phi.c))
+  if fields.get('h') is not None:
+    press = press + fields['h'][0]
+  energy = press + vec_dot(v, v) * 0.5
+  pflux = tuple(phi * c for c in v)
+  ev = lambda p: p(pts)
+  tend = dict(vorticity=ev(div_s(flux) * (-1 / a)),
+              divergence=ev(curl_n(flux) * (1 / a) - lap_s(energy) * (1 / a ** 2)),
+              potential=ev(div_s(pflux) * (-1 / a) - Poly.const(np.asarray(ref_potential, float)) * delta))
+  return tend, dict(vorticity=ev(zeta), divergence=ev(delta), potential=ev(phi))
+
+
 # ----------------------------------------------------------------------------------------------
 # the real classes
 
